@@ -19,7 +19,7 @@ CONSTRUCTS = {
     "new": "{x} RxV = RxV + NsN;",
     "pnew": "{x} if (PuN & 1) {{ RxV = 1; }}",
     "xnew": "{x} RxV = RxV + P0_NEW;",
-    "load": "{x} RxV = RxV + mem_load_s16(RsV);",
+    "load": "{x} RxV = RxV + ((size2s_t)(mem_load_s16(RsV)));",
     "store": "{x} mem_store_u32(RtV, RxV);",
     "jump": "{x} JUMP(RsV);",
     "pd": "{x} PdV = RsV;",
